@@ -35,6 +35,8 @@ func runC14(c *Ctx) {
 	c.Rule("C14.O7", "E5", "a WebSocket connection's executor is its parser's or the bound Execute of its nbio.Conn, never the inline executor on a poller-served connection (same rule as C05.O6): the close job must queue behind running message callbacks", 8)
 	wsExecutorStores(c, "C14.O7")
 	c.Rule("C14.O9", "E4", "a connection transferred to the poller is registered (AddTransferredConn) only after its open handler has run, or its callbacks are queued behind it: otherwise a message that arrives right after the handshake is handled while the open handler is still running", 2)
+	c.Rule("C14.O12", "E4", "a message is refused as a whole: with a bounded send queue WriteMessage tests the queue's room for the message (a comparison over len(sendQueue) and sendQueueSize) before the first fragment is written; a per-frame refusal half way leaves the fragments already queued on the wire and the next message starts inside an unfinished one", 1)
+	c14WholeRefusal(c)
 	c.Rule("C14.O11", "E4", "the blocking readers honour a hand-over that happened inside a failing Parse: every exit after Parse passes the Parser.ParserCloser test (or is the transferred edge), so a WebSocket connection created by an upgrade in the same read as a bad frame is cleaned up and its close callback runs", 2)
 	c14ReaderHandOver(c)
 	c.Rule("C14.O10", "E5", "the close callback runs after the message callbacks: inside the websocket package CloseAndClean is called only from the deferred cleanup of the function that runs the blocking read loop (every other closer goes through the connection's Close and leaves the callback to the reader or to the engine's close hook)", 1)
@@ -568,4 +570,100 @@ func c14ReaderHandOver(c *Ctx) {
 		}
 		c.Cond(bad2 == "", "C14.O11", key, c.Pos(parses[0]), "every exit after Parse passes the ParserCloser test (or is the transferred edge)", bad2)
 	}
+}
+
+// c14WholeRefusal: O12.
+func c14WholeRefusal(c *Ctx) {
+	fn := c.Fn("C14.O12", "(*websocket.Conn).WriteMessage")
+	if fn == nil {
+		return
+	}
+	fi := c.P.Info(fn)
+	key := fnKey(c.P, fn, "queue room tested before the first fragment")
+	var first ssa.Instruction
+	for _, cs := range c.P.CallsNamed(fn, "(*websocket.Conn).writeFrame") {
+		if fi.InLoop(cs.In) {
+			first = cs.In
+		}
+	}
+	if first == nil {
+		c.Unres("C14.O12", key, "fragment loop not found")
+		return
+	}
+	ok := false
+	mentions := func(cond ssa.Value) (usesLen, usesSize bool) {
+		seen := map[ssa.Value]bool{}
+		var walk func(v ssa.Value, d int)
+		walk = func(v ssa.Value, d int) {
+			if v == nil || seen[v] || d > 8 {
+				return
+			}
+			seen[v] = true
+			switch c.P.LoadedField(v) {
+			case fWsSendQueue:
+				usesLen = true
+			case "websocket.Conn.sendQueueSize":
+				usesSize = true
+			}
+			if in, ok := v.(ssa.Instruction); ok {
+				for _, op := range in.Operands(nil) {
+					if *op != nil {
+						walk(*op, d+1)
+					}
+				}
+			}
+		}
+		walk(cond, 0)
+		return
+	}
+	for _, t := range fi.Ifs() {
+		l, sz := mentions(t.Cond)
+		if !l || !sz || !fi.CanReach(t, first) {
+			continue
+		}
+		if fi.Dominates(t, first) {
+			ok = true
+			continue
+		}
+		// inside a guard on the queue's existence / bound that itself dominates the loop
+		for _, g := range fi.Ifs() {
+			gl, gs := mentions(g.Cond)
+			if (gl || gs) && g != t && fi.Dominates(g, first) && fi.Dominates(g, t) {
+				ok = true
+			}
+		}
+	}
+	for _, i := range fi.Ifs() {
+		if ok || !fi.Dominates(i, first) {
+			continue
+		}
+		usesLen, usesSize := false, false
+		seen := map[ssa.Value]bool{}
+		var walk func(v ssa.Value, d int)
+		walk = func(v ssa.Value, d int) {
+			if v == nil || seen[v] || d > 8 {
+				return
+			}
+			seen[v] = true
+			switch c.P.LoadedField(v) {
+			case fWsSendQueue:
+				usesLen = true
+			case "websocket.Conn.sendQueueSize":
+				usesSize = true
+			}
+			if in, ok := v.(ssa.Instruction); ok {
+				for _, op := range in.Operands(nil) {
+					if *op != nil {
+						walk(*op, d+1)
+					}
+				}
+			}
+		}
+		walk(i.Cond, 0)
+		if usesLen && usesSize {
+			ok = true
+		}
+	}
+	c.Cond(ok, "C14.O12", key, c.Pos(first), "a test over len(sendQueue) and sendQueueSize dominates the fragment loop",
+		"WriteMessage writes the fragments of a message one by one into a bounded send queue without testing the room for all of them first: when the queue fills up half way it returns ErrMessageSendQuqueIsFull while the fragments already queued go out, so the peer is left inside an unfinished message and the next message is a protocol error")
 }
